@@ -55,6 +55,10 @@ func c08GenLevel(t *rapid.T, depth int, path string, allowSub bool) c08Level {
 	}
 	for i := 0; i < n; i++ {
 		name := fmt.Sprintf("%s%s%d", path, []string{"z", "a", "m"}[i%3], i) // declared order is not the alphabetical one
+		if i == 0 && path != "" && rapid.IntRange(0, 3).Draw(t, "samename"+path) == 0 {
+			// a nested step that is called like the step it belongs to (build / build)
+			name = strings.TrimSuffix(path, ".")
+		}
 		nf := rapid.IntRange(1, 3).Draw(t, "nfunc"+name)
 		st := c08Step{Name: name, Threshold: rapid.IntRange(1, nf).Draw(t, "threshold"+name), DefectAt: rapid.IntRange(0, nf-1).Draw(t, "at"+name),
 			Functionaries: rapid.SliceOfNDistinct(rapid.SampledFrom([]string{"ed25519-0", "ed25519-1", "ecdsa-p256-0", "ecdsa-p256-1", "ecdsa-p384-0", "rsa2048-0"}), nf, nf, rapid.ID[string]).Draw(t, "func"+name)}
